@@ -937,6 +937,10 @@ namespace sim
             case Ev::SOFT: {
                static const char* what[] = { "?", "peek beyond the available data", "bump beyond the available data", "bump_in_this_line beyond the available data", "bump_to_next_line beyond the available data", "input end set outside the data", "reader asked to write outside the buffer", "action input span outside the available data" };
                const std::uint32_t w = static_cast< std::uint32_t >( e.x );
+               if( w == 9 || w == 10 ) {
+                  cx.viol( "C08.tracer", w == 9 ? "output" : "stack", i, w == 9 ? "the hooks the tracer printed differ from the recorded hook sequence from hook number " + std::to_string( e.y ) + " on" : "after the run the tracer's stack holds " + std::to_string( e.y >> 20 ) + " entries and it counted " + std::to_string( e.y & 0xfffffu ) + " rule starts" );
+                  break;
+               }
                if( w == 8 ) {
                   cx.viol( "C08.adaptor", top ? head_name( top->rule ) : "none", i, "a state-shuffling control adaptor handed its base control the states in order " + std::to_string( e.y ) + " (1 = first tag, 2 = state, 3 = last tag) in " + ( top ? short_name( top->rule ) : std::string( "none" ) ) );
                   break;
